@@ -87,6 +87,8 @@ def run_proof(modname, proofname, opts=None, sources=None):
             it.stubs = {}
             it.invariants = {}
             it.clock_hook = None
+            it.regex_hook = None
+            it.probing = 0
             try:
                 it.call(decl.fn, [], {})
             except PyRaise as e:
